@@ -55,6 +55,16 @@ func HostileDoc(depth int) *rapid.Generator[bson.D] {
 		n := rapid.IntRange(0, 4).Draw(t, "hdn")
 		d := bson.D{}
 		for i := 0; i < n; i++ {
+			if rapid.IntRange(0, 3).Draw(t, "plain") == 0 {
+				// plain fields with numbers / arrays of numbers so that
+				// operators get to their value logic
+				var v interface{} = boundaryNumber().Draw(t, "pnum")
+				if rapid.IntRange(0, 3).Draw(t, "parr") == 0 {
+					v = bson.A{v, boundaryNumber().Draw(t, "pnum2")}
+				}
+				d = append(d, bson.E{Key: rapid.SampledFrom(Keys).Draw(t, "pkey"), Value: v})
+				continue
+			}
 			d = append(d, bson.E{Key: rapid.SampledFrom(hostileKeys).Draw(t, "hkey"), Value: HostileValue(depth).Draw(t, "hval")})
 		}
 		return d
@@ -64,6 +74,68 @@ func HostileDoc(depth int) *rapid.Generator[bson.D] {
 var queryOps = []string{"$eq", "$ne", "$gt", "$gte", "$lt", "$lte", "$in", "$nin", "$exists", "$type", "$size", "$all", "$elemMatch", "$mod", "$bitsAllSet", "$bitsAnySet", "$bitsAllClear", "$bitsAnyClear", "$not", "$and", "$or", "$nor", "$jsonSchema", "$regex", "$where", "$unknown"}
 
 var schemaKeys = []string{"type", "bsonType", "required", "properties", "minimum", "maximum", "exclusiveMinimum", "enum", "minItems", "maxItems", "uniqueItems", "items", "additionalProperties", "allOf", "anyOf", "oneOf", "not", "pattern", "minLength", "maxLength", "multipleOf", "minProperties", "maxProperties", "patternProperties", "dependencies", "additionalItems", "title", "description"}
+
+// boundaryNumbers are numeric operator arguments at and beyond the edges of
+// what operators accept.
+var boundaryNumbers = []interface{}{
+	int32(0), int32(1), int32(-1), int32(2), int64(0), int64(1), int64(-1), int64(math.MaxInt64), int64(math.MinInt64), int32(math.MaxInt32), int32(math.MinInt32),
+	float64(0), math.Copysign(0, -1), 0.5, -0.5, 0.25, -0.25, 0.999, 1e-300, -1e-300, 1.5, 2.0, -2.0, 63.0, 64.0, 65.0, 255.0, 256.0, 1e19, -1e19, math.Pow(2, 63), -math.Pow(2, 63), math.MaxFloat64, -math.MaxFloat64, math.NaN(), math.Inf(1), math.Inf(-1),
+	D128("0"), D128("0.5"), D128("NaN"), D128("Infinity"), D128("2"),
+}
+
+func boundaryNumber() *rapid.Generator[interface{}] { return rapid.SampledFrom(boundaryNumbers) }
+
+// NearValidExpr draws an operator expression that has the right shape for its
+// operator but boundary values inside (zero / fractional / huge / non-finite
+// divisors, sizes, bit positions, type codes, ...).
+func NearValidExpr() *rapid.Generator[bson.E] {
+	return rapid.Custom(func(t *rapid.T) bson.E {
+		op := rapid.SampledFrom([]string{"$mod", "$mod", "$size", "$bitsAllSet", "$bitsAnySet", "$bitsAllClear", "$bitsAnyClear", "$type", "$in", "$all", "$elemMatch", "$exists", "$gt", "$lte", "$ne", "$not"}).Draw(t, "nvop")
+		switch op {
+		case "$mod":
+			n := rapid.SampledFrom([]int{2, 2, 2, 2, 0, 1, 3}).Draw(t, "modn")
+			a := bson.A{}
+			for i := 0; i < n; i++ {
+				a = append(a, boundaryNumber().Draw(t, "modv"))
+			}
+			return bson.E{Key: op, Value: a}
+		case "$size":
+			return bson.E{Key: op, Value: boundaryNumber().Draw(t, "sz")}
+		case "$bitsAllSet", "$bitsAnySet", "$bitsAllClear", "$bitsAnyClear":
+			switch rapid.IntRange(0, 2).Draw(t, "bk") {
+			case 0:
+				return bson.E{Key: op, Value: boundaryNumber().Draw(t, "mask")}
+			case 1:
+				a := bson.A{}
+				for i, n := 0, rapid.IntRange(0, 3).Draw(t, "bn"); i < n; i++ {
+					a = append(a, boundaryNumber().Draw(t, "bp"))
+				}
+				return bson.E{Key: op, Value: a}
+			default:
+				return bson.E{Key: op, Value: primitive.Binary{Data: rapid.SliceOfN(rapid.Byte(), 0, 12).Draw(t, "bin")}}
+			}
+		case "$type":
+			if rapid.Bool().Draw(t, "tarr") {
+				return bson.E{Key: op, Value: bson.A{boundaryNumber().Draw(t, "t1"), rapid.SampledFrom([]interface{}{"number", "", "bogus", "int"}).Draw(t, "t2")}}
+			}
+			return bson.E{Key: op, Value: boundaryNumber().Draw(t, "tn")}
+		case "$in", "$all":
+			a := bson.A{}
+			for i, n := 0, rapid.IntRange(0, 3).Draw(t, "inn"); i < n; i++ {
+				a = append(a, HostileValue(1).Draw(t, "inv"))
+			}
+			return bson.E{Key: op, Value: a}
+		case "$elemMatch":
+			return bson.E{Key: op, Value: bson.D{NearValidExpr().Draw(t, "em")}}
+		case "$not":
+			return bson.E{Key: op, Value: bson.D{NearValidExpr().Draw(t, "not")}}
+		case "$exists":
+			return bson.E{Key: op, Value: boundaryNumber().Draw(t, "ex")}
+		default:
+			return bson.E{Key: op, Value: boundaryNumber().Draw(t, "cmp")}
+		}
+	})
+}
 
 // HostileFilter draws a filter whose operators get arbitrary arguments.
 func HostileFilter(depth int) *rapid.Generator[bson.D] {
@@ -94,6 +166,12 @@ func HostileFilter(depth int) *rapid.Generator[bson.D] {
 				d = append(d, bson.E{Key: op, Value: arg})
 			case 2:
 				d = append(d, bson.E{Key: rapid.SampledFrom(HostilePaths).Draw(t, "lp"), Value: HostileValue(2).Draw(t, "lit")})
+			case 3, 4, 5:
+				ops := bson.D{}
+				for j, m := 0, rapid.IntRange(1, 2).Draw(t, "nvn"); j < m; j++ {
+					ops = append(ops, NearValidExpr().Draw(t, "nv"))
+				}
+				d = append(d, bson.E{Key: rapid.SampledFrom([]string{"a", "b", "c", "a.b", "a.0", "_id"}).Draw(t, "nvp"), Value: ops})
 			default:
 				ops := bson.D{}
 				for j, m := 0, rapid.IntRange(1, 3).Draw(t, "on"); j < m; j++ {
@@ -174,14 +252,27 @@ func HostileUpdate() *rapid.Generator[bson.D] {
 					md := bson.D{}
 					for _, mk := range []string{"$each", "$position", "$slice", "$sort", "$type", "and", "or", "xor", "$bogus"} {
 						if rapid.IntRange(0, 3).Draw(t, "mk") == 0 {
-							md = append(md, bson.E{Key: mk, Value: HostileValue(1).Draw(t, "mv")})
+							switch {
+							case mk == "$each" && rapid.Bool().Draw(t, "eacharr"):
+								md = append(md, bson.E{Key: mk, Value: bson.A{boundaryNumber().Draw(t, "e1"), HostileValue(1).Draw(t, "e2")}})
+							case rapid.Bool().Draw(t, "mbound"):
+								md = append(md, bson.E{Key: mk, Value: boundaryNumber().Draw(t, "mb")})
+							default:
+								md = append(md, bson.E{Key: mk, Value: HostileValue(1).Draw(t, "mv")})
+							}
 						}
 					}
 					arg = md
+				case 2:
+					arg = boundaryNumber().Draw(t, "bnum")
 				default:
 					arg = HostileValue(2).Draw(t, "arg")
 				}
-				fields = append(fields, bson.E{Key: rapid.SampledFrom(HostilePaths).Draw(t, "up"), Value: arg})
+				up := rapid.SampledFrom(HostilePaths).Draw(t, "up")
+				if rapid.Bool().Draw(t, "plainpath") {
+					up = rapid.SampledFrom([]string{"a", "b", "c", "a.b", "a.0", "a.1"}).Draw(t, "pp")
+				}
+				fields = append(fields, bson.E{Key: up, Value: arg})
 			}
 			d = append(d, bson.E{Key: op, Value: fields})
 		}
@@ -197,17 +288,25 @@ func HostileProjection() *rapid.Generator[bson.D] {
 			var v interface{}
 			switch rapid.IntRange(0, 5).Draw(t, "pk") {
 			case 0:
-				v = bson.D{{Key: "$slice", Value: HostileValue(1).Draw(t, "sl")}}
+				if rapid.Bool().Draw(t, "slb") {
+					v = bson.D{{Key: "$slice", Value: boundaryNumber().Draw(t, "slbn")}}
+				} else {
+					v = bson.D{{Key: "$slice", Value: HostileValue(1).Draw(t, "sl")}}
+				}
 			case 1:
 				v = bson.D{{Key: "$elemMatch", Value: HostileFilter(1).Draw(t, "em")}}
 			case 2:
-				v = bson.D{{Key: "$slice", Value: bson.A{HostileValue(0).Draw(t, "s1"), HostileValue(0).Draw(t, "s2")}}}
+				v = bson.D{{Key: "$slice", Value: bson.A{boundaryNumber().Draw(t, "s1"), boundaryNumber().Draw(t, "s2")}}}
 			case 3:
 				v = rapid.SampledFrom([]interface{}{int32(1), int32(0), true, false, int64(1), float64(0)}).Draw(t, "flag")
 			default:
 				v = HostileValue(1).Draw(t, "pv")
 			}
-			d = append(d, bson.E{Key: rapid.SampledFrom(HostilePaths).Draw(t, "pp"), Value: v})
+			ppath := rapid.SampledFrom(HostilePaths).Draw(t, "pp")
+			if rapid.Bool().Draw(t, "pplain") {
+				ppath = rapid.SampledFrom([]string{"a", "b", "c", "a.b"}).Draw(t, "ppl")
+			}
+			d = append(d, bson.E{Key: ppath, Value: v})
 		}
 		return d
 	})
